@@ -65,6 +65,7 @@ instance : Monad M where
 
 def errOverflow := "BitString overflow"
 def errNotEnough := "not enough bits"
+def errNegative := "negative bit length"
 def panicIndex := "index out of range"
 def panicSlice := "slice bounds out of range"
 
